@@ -199,7 +199,10 @@ class Renderable(object):
                 # Write the file content
 
                 enc = child.config['files']['output-encoding']
-                with open(filename, 'w', encoding=enc) as f:
+                # Characters that the output encoding cannot represent
+                # are written as numeric character references
+                with open(filename, 'w', encoding=enc,
+                          errors='xmlcharrefreplace') as f:
                     f.write(val)
 
                 status.info(' ] ')
@@ -568,7 +571,8 @@ class Renderer(dict):
             if isinstance(postProcess, collections.abc.Callable):
                 s = postProcess(document, s)
 
-            with open(f, 'w', encoding=encoding) as fd:
+            with open(f, 'w', encoding=encoding,
+                      errors='xmlcharrefreplace') as fd:
                 fd.write(''.join(s))
 
     def find(self, keys, default=None):
